@@ -45,6 +45,11 @@ impl Parsable for FileLocation {
                 '.' => {
                     ext_delimiter = Some(raw_string.len());
                 }
+                // A dot before a directory separator does not begin the extension
+                // (e.g. `./file` or `dir.d/file`); see more_name in tex.ch of web2c.
+                c if path::is_separator(c) => {
+                    ext_delimiter = None;
+                }
                 _ => (),
             }
             raw_string.push(c);
